@@ -13,7 +13,7 @@
 From Coq Require Import ZArith Bool String List Reals.
 From Flocq Require Import Core BinarySingleNaN.
 Require Import NixV.Base.Prelude NixV.Base.F64 NixV.Base.F64Facts NixV.Gen.GenDimensions NixV.Axis.AxisSpec
-               NixV.Axis.SampledProofs NixV.Data.NDIndex NixV.Data.NDArr
+               NixV.Axis.RangeModel NixV.Axis.SampledProofs NixV.Data.NDIndex NixV.Data.NDArr
                NixV.Access.SliceSwitches NixV.Access.View NixV.Access.Slice NixV.Access.SliceSpec
                NixV.Access.SliceFacts NixV.Access.ViewProofs NixV.Access.SliceProofs.
 Import ListNotations.
@@ -132,6 +132,19 @@ Theorem C17_sampled_axis_ok : forall dt off u,
   finite (off_or0 off) -> finite dt -> (0 < B2R dt)%R -> axis_finite dt (off_or0 off) -> axis_ok (DSampled dt off u).
 Proof. exact sampled_axis_ok. Qed.
 Print Assumptions C17_sampled_axis_ok.
+
+Theorem C17_int_axis_ok : forall d,
+  (exists l, d = DSet l /\ zlen l <= AXIS_MAX + 1) \/ (exists r, d = DFrame r /\ 0 <= r <= AXIS_MAX + 1) -> axis_ok d.
+Proof. exact int_axis_ok. Qed.
+Print Assumptions C17_int_axis_ok.
+
+Theorem C17_range_axis_ok : forall ticks u,
+  zlen ticks <= AXIS_MAX + 1 ->
+  (forall i, 0 <= i < zlen ticks -> finite (RangeModel.tick_at ticks i)) ->
+  (forall i j, 0 <= i <= j -> j < zlen ticks -> (B2R (RangeModel.tick_at ticks i) <= B2R (RangeModel.tick_at ticks j))%R) ->
+  axis_ok (DRange ticks u).
+Proof. exact range_axis_ok. Qed.
+Print Assumptions C17_range_axis_ok.
 
 Theorem C17_unit_ok_known : forall u d,
   (forall a, u = Some a -> In (fst a) known_prefixes) ->
